@@ -14,13 +14,14 @@ import (
 
 // outcome of one execution of one front-end on one input under one delivery schedule.
 type outcome struct {
-	Name   string
-	Docs   []any // delivered documents (single mode: the returned value, if no error)
-	Err    error
-	Panic  any
-	Hung   bool
-	Bounds []int // where Read results ended
-	Calls  int
+	Name     string
+	Docs     []any // delivered documents (single mode: the returned value, if no error)
+	Err      error
+	Panic    any
+	Hung     bool
+	Bounds   []int // where Read results ended
+	Calls    int
+	FaultHit bool // the reader returned its injected error
 }
 
 func (o *outcome) class() string {
@@ -192,6 +193,7 @@ func run(name string, rd *sim.SimReader, f func(o *outcome)) *outcome {
 	if rd != nil {
 		o.Bounds = rd.Bounds
 		o.Calls = rd.Calls
+		o.FaultHit = rd.FaultHit
 		if rd.Hung {
 			o.Hung = true
 		}
@@ -240,9 +242,10 @@ var feUsed int
 var feReuse bool
 
 var (
-	usedOK   = []byte(`{"secret":[1,2,3],"k":"earlier \u00e9 string","n":-12.5e3}`)
-	usedMid  = []byte(`{"secret":[1,2,"unfinished \u00`)
-	usedTail = []byte(`[true,{"x":null}] }`)
+	// (with line feeds and multi-byte characters: the line / column bookkeeping has a past too)
+	usedOK   = []byte("{\"secret\":[1,2,3],\n\n\"k\":\"earlier \\u00e9 é string\",\r\n  \"n\":-12.5e3}\n")
+	usedMid  = []byte("{\"secret\":\n[1,\n2,\n   \"unfinished é \\u00")
+	usedTail = []byte("[true,\n{\"x\":null}]\n\n  }")
 )
 
 func usedDoc() ([]byte, bool) {
